@@ -136,7 +136,7 @@ def plan(tier, seed):
                      observe=rnd.random() < 0.3, async_steps=rnd.random() < 0.25, chatty=rnd.random() < 0.06,
                      loglevel=rnd.choice(LOGLEVELS) if rnd.random() < 0.3 else "",
                      logfilter=rnd.choice(LOGFILTERS) if rnd.random() < 0.3 else "",
-                     logclear=rnd.random() < 0.2, tamper=rnd.random() < 0.2, wip=rnd.random() < 0.12, rootlvl0=rnd.random() < 0.15)
+                     logclear=rnd.random() < 0.2, tamper=rnd.random() < 0.2, wip=rnd.random() < 0.12, rootlvl0=rnd.random() < 0.15, async_timeout=rnd.random() < 0.5, cont_by_hook=rnd.random() < 0.3)
 
     def cleanup_only_programs():
         """programs in which NOTHING fails except a cleanup registered at a given layer (every layer, raising or not)"""
@@ -257,6 +257,8 @@ def plan(tier, seed):
     def rfaults(p, n):
         nh = G.count_hooks_upper(G.flatten(p))
         fs = [[0, 0]]
+        if rnd.random() < 0.12:
+            fs.append([1, 0])        # the very first hook invocation: before_all
         for _ in range(n):
             a = rnd.randint(1, nh)
             fs.append([a, 0] if rnd.random() < 0.8 else [a, rnd.randint(1, nh)])
@@ -312,7 +314,7 @@ def shared(chk, part="core"):
     """Run (or load) the shared stage for this tree / tier / seed.  Returns a dict:
        n_runs, tlc: [{module,cfg,distinct,generated,wall,coverage}], verdicts: {clause: [ {key, ...} ]},
        divergences, samples, design_violations"""
-    key = tree_key({"tier": chk.tier, "seed": chk.seed, "part": part, "v": 22})
+    key = tree_key({"tier": chk.tier, "seed": chk.seed, "part": part, "v": 24})
     os.makedirs(CACHE, exist_ok=True)
     # one entry per (part, tier, repository location): runs against a mutated copy must not evict /repo's entry
     prefix = "%s-%s-%s-" % (part, chk.tier, hashlib.sha256(REPO.encode()).hexdigest()[:8])
